@@ -5,6 +5,15 @@ path facts), not on the spelling of the source: a format assembled through varia
 is the same template; a guard is recognised by what the tests passed on the way imply at the point of use (early `raise` / `return`,
 inverted conditions, `not in`, `elif` chains are all the same guard); locals may be renamed, temporaries introduced or removed, private
 helpers of the module extracted or inlined.
+
+Anchors are the public entry points the property names (wttabled1, wtgrids, wtdmig, rddmig, rdtabled1, rdgrids, wtnasints, wtset, wtspoints,
+writer.vecwrite, and every other public `wt*` writer for the format-width and THRU rules).  No rule looks a private function up by name: calls
+are followed (nested functions, private module-level helpers, generators used as the iterable of a `for`, functools.partial / lambda callbacks),
+and where a piece of code has to be singled out it is found by the values that flow into it (`_card_consumer`: the function rddmig hands the
+result of rdcards to; R2: the function that contains a vecwrite call, then its users up to the public entry points).
+A violation is reported only for a contradiction that is proved (a witness under the tests the code performs, two literal texts that differ);
+whatever is merely not understood - an unknown call that returns the data, a use of the file this module does not model - is an analysis
+error (exit 2).
 """
 from __future__ import annotations
 
@@ -413,9 +422,13 @@ def _width_obligations(ctx, once):
 
 
 def _arm_value(atom, facts, allowed):
-    """the values of `atom` the facts leave possible, and whether all of them are allowed"""
+    """the values of `atom` the facts leave possible, and whether all of them are allowed (None: a test on the way speaks about the quantity in a
+    way that cannot be evaluated - e.g. membership in something unknown - so nothing can be said)"""
     ok, cand = M.possible_values(atom, facts, extra=allowed, lo=0)
-    return ok, all(v in allowed for v in ok)
+    fine = all(v in allowed for v in ok)
+    if not fine and any(M.truth(t, {atom: c}) is None for t, _ in facts if M.mentions(t, atom) for c in list(allowed)[:1]):
+        return ok, None
+    return ok, fine
 
 
 class V:
@@ -495,6 +508,8 @@ def stream(events, cur=()):
                 toks.append(("vec", e))
             elif e.kind == "call" and is_write(e):
                 toks.extend(s_tokens(e.d["args"][0], e))
+            elif e.kind == "call" and _uses_file(e):
+                toks.append(("opaque", ("op", "output through " + str(e.d["name"] or e.d["attr"]), ()), e))
             i += 1
             continue
         L = e.loops[len(cur)]
@@ -509,6 +524,22 @@ def stream(events, cur=()):
             toks.append(("each", head, alts, e))
         i += len(grp)
     return toks
+
+
+FILE = ("sym", "f")          # the file parameter of the public writers
+
+
+def _uses_file(e):
+    """a call that may write to the file in a way this module does not model: a method of the file other than write (whose other spellings
+    the engine turns into write events), or the file handed to a function that is not followed"""
+    if e.d["attr"] in ("write",) or is_vecwrite(e):
+        return False
+    if e.d["name"] == "print" or e.d["attr"] == "writelines":
+        # understood spellings are accompanied by synthetic write events; if none was produced the text is unknown
+        return not e.d.get("modelled")
+    if e.d["recv"] == FILE and e.d["attr"] not in ("flush", "tell", "seek", "close", "fileno", "isatty", "writable"):
+        return True
+    return any(a == FILE for a in list(e.d["args"]) + list(e.d["kws"].values()))
 
 
 def to_lines(toks):
@@ -620,7 +651,9 @@ def _tabled1(ctx):
     for e in data_events:
         vals, fine = _arm_value(X, e.facts, (16, 32))
         reach |= vals
-        if not fine:
+        if fine is None:
+            g.unknown({"a test on the rendered length that cannot be evaluated": [show(t) for t, _ in e.facts if M.mentions(t, X)][:3]}, e.node)
+        elif not fine:
             g.bad({"lengths of form.format(<pair>) not excluded before data is written": sorted(vals)[:8]}, e.node)
     if g.v is True and not {16, 32} <= reach:
         g.bad({"no data is written for a form that renders a pair in": sorted({16, 32} - reach)})
@@ -682,7 +715,7 @@ def _tabled1(ctx):
                             ups.add(u)
                             lo_, hi_ = M.bounds(M.mod(u, per), e.facts)
                             if not (lo_ == 0 and hi_ == 0):
-                                w = M.find_witness([("len", ("sym", "t"))], e.facts, lambda a_, u=u: M.lin_eval(M.mod(u, per), a_) not in (None, 0),
+                                w = _witness([("len", ("sym", "t"))], e.facts, lambda a_, u=u: M.lin_eval(M.mod(u, per), a_) not in (None, 0),
                                                    ranges={("len", ("sym", "t")): (1, 48)})
                                 if w is not None:
                                     inter.bad({"upper bound": show(u), "not a multiple of the stride for": {show(k): v for k, v in w.items()}})
@@ -765,7 +798,7 @@ def _tabled1(ctx):
             facts = tuple(f for f in s.facts)
             blo, bhi = M.bounds(lft, facts)
             if not (blo is not None and bhi is not None and blo >= 0 and bhi <= per - 1):
-                w = M.find_witness([("len", ("sym", "t"))], facts, lambda a_, lft=lft: not (0 <= M.lin_eval(lft, a_) <= per - 1), ranges={("len", ("sym", "t")): (1, 48)})
+                w = _witness([("len", ("sym", "t"))], facts, lambda a_, lft=lft: not (0 <= M.lin_eval(lft, a_) <= per - 1), ranges={("len", ("sym", "t")): (1, 48)})
                 if w is not None:
                     left.bad({"leftover pairs range": [str(blo), str(bhi)], "start of the leftover loop": show(lo_), "witness": {show(k): v for k, v in w.items()}})
                 else:
@@ -842,7 +875,9 @@ def _grids(ctx, once):
     for e in vec:
         vals, fine = _arm_value(X, e.facts, (8, 16))
         reach |= vals
-        if not fine:
+        if fine is None:
+            g.unknown({"a test on the rendered length that cannot be evaluated": [show(t) for t, _ in e.facts if M.mentions(t, X)][:3]}, e.node)
+        elif not fine:
             g.bad({"lengths of form.format(x) not excluded before data is written": sorted(vals)[:8]}, e.node)
     if g.v is True and not {8, 16} <= reach:
         g.bad({"no data is written for a form that renders in": sorted({8, 16} - reach)})
@@ -873,11 +908,49 @@ def _grids(ctx, once):
                 ok = len(head) == 8 and not lay["stray"] and lay["fields"] <= per and all(w == W for w in lay["widths"])
                 chk(ok, inst, e.node, None if ok else dict({k: (v if k != "widths" else [str(w) for w in v]) for k, v in lay.items()}, **{"when form renders in": Wf}),
                     key=key)
+            if any(isinstance(a, tuple) and a[:1] == ("star",) for a in data):
+                if f"wtgrids-args|{tmpl!r}|{Wf}" not in once.seen:
+                    once.seen.add(f"wtgrids-args|{tmpl!r}|{Wf}")
+                    ctx.error("wtgrids: the vectors passed to the vectorised write", e.node, "a starred list whose items are not known: " + show(data[0]))
+                continue
             nf = M.count_fields(M.template_items(tmpl), {form: 1})
             ok = nf is not None and nf == Lin(c=len(data))
             chk(ok, f"wtgrids: the template starting `{(line_layout(lines[0], Wf)['head'] or '')}` ({len(lines)} line(s)) consumes exactly the {len(data)} vectors passed",
                 e.node, None if ok else {"fields": show(nf) if nf is not None else None, "vectors": len(data)}, key=f"wtgrids-args|{tmpl!r}|{Wf}")
+            # the k-th field of a GRID card is the k-th quantity of the card: id, cp, x, y, z, cd, ps, seid (rdgrids returns the fields as they come)
+            want = ["grids", "cp", ("xyz", 0), ("xyz", 1), ("xyz", 2), "cd", "ps", "seid"][:len(data)]
+            got = [_grid_role(a) for a in data]
+            key = f"wtgrids-order|{tmpl!r}|{Wf}"
+            if None in got or len(data) > 8:
+                if key not in once.seen:
+                    once.seen.add(key)
+                    ctx.error("wtgrids: the vectors are passed in the order of the card fields (id, cp, x, y, z, cd, ps, seid)", e.node,
+                              {"not understood": [show(a) for a, r_ in zip(data, got) if r_ is None][:3]})
+            else:
+                chk(got == want, "wtgrids: the vectors are passed in the order of the card fields (id, cp, x, y, z, cd, ps, seid)", e.node,
+                    None if got == want else {"passed": [str(x) for x in got], "card order": [str(x) for x in want]}, key=key)
     g.report(ctx, "wtgrids: a user `form` must render in 8 or 16 characters", fn)
+
+
+def _grid_role(a):
+    """which quantity of the GRID card a vector handed to vecwrite is: the name of the public parameter it comes from, or ("xyz", j) for
+    column j of the coordinate array (xyz[:, j], xyz.T[j], xyz[..., j]); None when not understood"""
+    o = M.origin(a)
+    if isinstance(o, tuple) and o[:1] == ("sym",) and o[1] in ("grids", "cp", "cd", "ps", "seid"):
+        return o[1]
+    if isinstance(o, tuple) and o[:1] == ("elem",):
+        base, idx = M.origin(o[1]), o[2]
+        full = ("sl", Lin(), ("k", None), Lin(c=1))
+        if base == ("sym", "xyz") and isinstance(idx, tuple) and idx[:1] == ("tuple",) and len(idx[1]) == 2 and idx[1][0] in (full, ("k", Ellipsis), ("sym", "Ellipsis")) \
+                and M.is_int_const(idx[1][1]):
+            return ("xyz", M.ival(idx[1][1]))
+        if base == ("sym", "xyz") and isinstance(idx, tuple) and idx[:1] == ("tuple",) and len(idx[1]) == 2 and idx[1][1] == full and M.is_int_const(idx[1][0]):
+            return ("row of xyz", M.ival(idx[1][0]))
+        if isinstance(base, tuple) and base[:2] == ("op", "T") and M.origin(base[2][0]) == ("sym", "xyz") and M.is_int_const(idx):
+            return ("xyz", M.ival(idx))
+        if base == ("sym", "xyz") and M.is_int_const(idx):
+            return ("row of xyz", M.ival(idx))
+    return None
 
 
 # ====================================================================================================================== R2
@@ -1049,7 +1122,7 @@ def r2_nonempty_vector(ctx):
                         if lo is not None and lo >= 0:
                             continue
                         syms = [s_ for s_ in M.free_symbols(ln) if isinstance(s_, tuple) and s_[0] == "len"]
-                        w = M.find_witness(syms, e.facts, lambda asg_, ln=ln: (M.lin_eval(ln, asg_) is not None and M.lin_eval(ln, asg_) <= 0),
+                        w = _witness(syms, e.facts, lambda asg_, ln=ln: (M.lin_eval(ln, asg_) is not None and M.lin_eval(ln, asg_) <= 0),
                                            ranges={s_: (1, 48) for s_ in syms}) if syms else None
                         if w is not None:
                             verdict = False
@@ -1125,11 +1198,18 @@ def _columns(v):
             return list(v[2][0][2][0][1])
         if v[1] in ("np.column_stack",) and isinstance(v[2][0], tuple) and v[2][0][:1] == ("tuple",):
             return list(v[2][0][1])
+        kws = dict(v[3]) if len(v) > 3 else {}
+        if v[1] == "np.stack" and len(v[2]) >= 1 and isinstance(v[2][0], tuple) and v[2][0][:1] == ("tuple",) \
+                and (kws.get("axis") in (Lin(c=1), Lin(c=-1)) or (len(v[2]) > 1 and v[2][1] in (Lin(c=1), Lin(c=-1)))):
+            return list(v[2][0][1])                     # np.stack((a, b), axis=1)
+        if v[1] in ("np.array", "np.asarray") and len(v[2]) >= 1 and isinstance(v[2][0], tuple) and v[2][0][:2] == ("op", "list") \
+                and isinstance(v[2][0][2][0], tuple) and v[2][0][2][0][:2] == ("op", "zip"):
+            return list(v[2][0][2][0][2])               # np.array(list(zip(a, b)))
     if isinstance(v, tuple) and v and v[0] == "elem" and v[1] == ("sym", "np.c_") and isinstance(v[2], tuple) and v[2][:1] == ("tuple",):
         return list(v[2][1])
     if isinstance(v, tuple) and v[:2] == ("op", ".reshape") and len(v[2]) in (2, 3):
         shape = v[2][1:] if len(v[2]) == 3 else (v[2][1][1] if isinstance(v[2][1], tuple) and v[2][1][:1] == ("tuple",) else ())
-        ns = _norm_slice(v[2][0])
+        ns = _norm_slice(M.origin(v[2][0]))
         if len(shape) == 2 and shape[1] == Lin(c=2) and ns is not None and ns[3] == Lin(c=1):
             # consecutive pairs: column 0 is every second element from the first one on, column 1 from the next one on
             base, lo, end, _ = ns
@@ -1184,6 +1264,30 @@ def _shape2(v):
     return v, lin(("len", M.origin(v))), lin(("dim", M.origin(v), 1)), []
 
 
+def _is_zeros2(v):
+    return isinstance(v, tuple) and v[:2] == ("op", "np.zeros") and v[2] and isinstance(v[2][0], tuple) and v[2][0][:1] == ("tuple",) and len(v[2][0][1]) == 2
+
+
+def _filled(E, ret, z):
+    """`out = np.zeros((rows, C)); out[:, :c] = block; return out` -> the block followed by zero columns (same shape tuple as _shape2)"""
+    r, C = z[2][0][1]
+    full = ("sl", Lin(), ("k", None), Lin(c=1))
+    blocks = [e for e in E.events("store") if e.d["base"] == z and e.seq < ret.seq and set(e.facts) <= set(ret.facts)]
+    if len(blocks) != 1:
+        return None
+    e = blocks[0]
+    idx = e.d["index"]
+    if not (isinstance(idx, tuple) and idx[:1] == ("tuple",) and len(idx[1]) == 2 and idx[1][0] == full):
+        return None
+    cs = idx[1][1]
+    blk = e.d["value"]
+    if not (isinstance(cs, tuple) and cs[:1] == ("sl",) and cs[1] == Lin() and cs[3] == Lin(c=1) and isinstance(cs[2], Lin)):
+        return None
+    if isinstance(blk, (Lin, S)) or lin(r) != lin(("len", M.origin(blk))) or cs[2] != lin(("dim", M.origin(blk), 1)):
+        return None
+    return blk, lin(r), lin(C), ["zeros"]
+
+
 def _norm_slice(sl):
     """(base, first, end relative to the length (0 = to the end, -1 = all but the last), step) of a 1-D slice with constant bounds"""
     if not (isinstance(sl, tuple) and sl[:1] == ("slice",)):
@@ -1206,6 +1310,8 @@ def _norm_slice(sl):
 def _transpose_form(v):
     """(base, transposed?, conjugated?) of a matrix expression built from .T / .transpose() / .conj()"""
     tr = cj = False
+    if isinstance(v, Lin) and the_atom(v) is not None:
+        v = the_atom(v)                 # a matrix compared as a number is wrapped in a linear form
     while isinstance(v, tuple) and v and v[0] == "op":
         if v[1] == "T" and len(v[2]) == 1:
             tr = not tr
@@ -1295,7 +1401,7 @@ def r3_reader_strides(ctx):
         if v_ == ("k", None):
             continue
         g.at(e.node)
-        shape = _shape2(v_)
+        shape = _shape2(v_) if not _is_zeros2(v_) else _filled(E, e, v_)
         if shape is None:
             g.unknown(show(v_))
             continue
@@ -1317,12 +1423,14 @@ def r3_reader_strides(ctx):
             continue
         if ncols != Lin(c=8):
             r_, w_ = _differs(ncols - 8, e.facts, limit=12)
-            (g.bad if r_ is True else g.unknown)({"columns after padding": show(ncols), "not 8 for": w_})
-            continue
+            if r_ is not False:
+                (g.bad if r_ is True else g.unknown)({"columns after padding": show(ncols), "not 8 for": w_})
+                continue
+        # the block of zeros must have a width that exists (>= 0): the card has at most as many columns as the result
         nc = lin(("dim", M.origin(first), 1))
-        lo, hi = M.bounds(nc, e.facts)
-        if not (hi is not None and hi <= 8):
-            g.unknown({"padding is applied when the card has": f"{lo}..{hi} columns"})
+        lo, hi = M.bounds(ncols - nc, e.facts)
+        if not (lo is not None and lo >= 0):
+            g.unknown({"width of the padding": show(ncols - nc), "proved": f"{lo}..{hi}"})
             continue
         padded += 1
     if g.v is True and padded < 1:
@@ -1505,6 +1613,29 @@ def _dmig(ctx):
     if v.v is True and not (seen6 and seen_other):
         v.unknown("terms written for the symmetric and for the general form")
     v.report(ctx, "wtdmig: form 6 writes rows col..n-1 of each column (one of each (i,j)/(j,i) pair)", wd)
+    # every non-zero term is written: no test on the way to the write of a term is false for a non-zero value of that term (a term that is not
+    # written is read back as zero)
+    v = V()
+    nterm = 0
+    for e in terms:
+        v.at(e.node)
+        nums = []
+        for x in _formatted_numbers(e.d["args"][0]):
+            while isinstance(x, tuple) and x[:1] == ("attr",) and x[2] in ("real", "imag"):
+                x = x[1]
+            if x is not None and x not in nums and not isinstance(x, (Lin, S)):
+                nums.append(x)
+        if len(nums) != 1:
+            continue
+        nterm += 1
+        for t, pol in e.facts:
+            if M.mentions(t, nums[0]):
+                r = next((x for x in (M.truth(t, {nums[0]: 1}), M.truth(t, {nums[0]: -1})) if x is not None and x != pol), None)
+                if r is not None and r != pol:
+                    v.bad({"the term is written only when": ("" if pol else "not ") + show(t), "so a non-zero term is skipped": show(nums[0])}, e.node)
+    if v.v is True and nterm == 0:
+        v.unknown("the value written for a term")
+    v.report(ctx, "wtdmig: a non-zero term is never skipped (terms that are not written come back as zero)", wd)
     # D exponent for the double-precision types
     v = V()
     kinds = set()
@@ -1578,6 +1709,24 @@ class _AsRange:
         self.node, self.facts, self.loops, self.kind = head.node, head.facts, head.loops, head.kind
 
 
+def _formatted_numbers(v):
+    """the values rendered with a floating-point spec in a written string (through `.replace`, nested strings, ...)"""
+    out = []
+    if isinstance(v, S):
+        for x in v.p:
+            if x[0] == "fv":
+                sp = M.parse_spec(x[1]) if x[1] is not None else None
+                if sp is not None and sp.type in ("e", "E", "f", "F", "g", "G"):
+                    out.append(x[2])
+                elif isinstance(x[2], (S, tuple)):
+                    out.extend(_formatted_numbers(x[2]))
+            elif x[0] == "str":
+                out.extend(_formatted_numbers(x[1]))
+    elif isinstance(v, tuple) and v[:2] == ("op", ".replace") and v[2]:
+        out.extend(_formatted_numbers(v[2][0]))
+    return out
+
+
 def _excludes(facts, x, k):
     """the facts prove x != k"""
     lo, hi = M.bounds(lin(x) - k, facts)
@@ -1607,6 +1756,9 @@ def _symmetry_test(ctx, t, pol, E, depth=0):
        (None, why)  a test this rule cannot decide;   None: not about symmetry"""
     if not isinstance(t, tuple) or not t:
         return None
+    if t[0] == "op" and t[1] in ("np.allclose", "np.isclose") and len(t[2]) >= 2 and pol and _is_zero(t[2][1]) and _difference(t[2][0]) is not None:
+        d = _difference(t[2][0])                # np.allclose(m - m.T, 0)
+        return _cmp_transposes(d[0], d[1])
     if t[0] == "op" and t[1] in ("np.allclose", "np.array_equal", "np.isclose", "np.array_equiv") and len(t[2]) >= 2:
         if not pol:
             return None
@@ -1623,6 +1775,16 @@ def _symmetry_test(ctx, t, pol, E, depth=0):
         if a[0] == b[0] and a[1] != b[1]:
             return (True, None) if a[2] == b[2] else (False, sorted(show(x) for x in t[2][0][2:4]), None)
         return None
+    if t[0] == "not" and len(t) == 2:
+        return _symmetry_test(ctx, t[1], not pol, E, depth)
+    if t[0] == "op" and t[1] in (".any", "np.any") and len(t[2]) == 1 and not pol:
+        x = t[2][0]                             # not (m != m.T).any()  /  not np.any(m - m.T)
+        if isinstance(x, tuple) and x[:1] == ("not",) and isinstance(x[1], tuple) and x[1][:2] == ("cmp", "Eq"):
+            return _cmp_transposes(x[1][2], x[1][3])
+        d = _difference(x)
+        if d is not None:
+            return _cmp_transposes(d[0], d[1])
+        return None
     if t[0] == "op" and pol and isinstance(t[1], str) and depth < 2:
         # a predicate of the package: follow its definition
         name = t[1]
@@ -1631,6 +1793,33 @@ def _symmetry_test(ctx, t, pol, E, depth=0):
         if "." not in name and len(t[2]) >= 1 and ctx.src.has_func(BULK, name):
             return _follow_predicate(ctx, BULK, name, t, depth)
     return None
+
+
+def _is_zero(v):
+    return v == Lin() or v == ("k", 0.0)
+
+
+def _difference(v):
+    """(a, b) of a value a - b"""
+    if isinstance(v, Lin) and v.c == 0 and len(v.t) == 2:
+        (a, ca), (b, cb) = v.t.items()
+        if ca == 1 and cb == -1:
+            return a, b
+        if ca == -1 and cb == 1:
+            return b, a
+    if isinstance(v, tuple) and v[:2] == ("op", "np.subtract") and len(v[2]) == 2:
+        return v[2][0], v[2][1]
+    return None
+
+
+def _cmp_transposes(x, y):
+    """verdict of `x equals y` as a symmetry test: (True, None) plain transpose of the same matrix, (False, ...) conjugate transpose, None otherwise"""
+    a, b = _transpose_form(x), _transpose_form(y)
+    if a[0] != b[0] or a[1] == b[1]:
+        return None
+    if a[2] == b[2]:
+        return (True, None)
+    return (False, sorted(show(z) for z in (x, y)), None)
 
 
 def _follow_predicate(ctx, rel, qual, t, depth):
@@ -1862,7 +2051,7 @@ def _nasints(ctx):
             d_ = cap - r["nints"]
             if not M.proves_ge0(d_, e.facts):
                 syms = M.free_symbols(d_)
-                w = M.find_witness(syms, e.facts, lambda a_, d_=d_: (M.lin_eval(d_, a_) is not None and M.lin_eval(d_, a_) < 0), limit=30) if len(syms) <= 3 else None
+                w = _witness(syms, e.facts, lambda a_, d_=d_: (M.lin_eval(d_, a_) is not None and M.lin_eval(d_, a_) < 0), limit=30) if len(syms) <= 3 else None
                 if w is not None:
                     v.bad({"integers on the line": show(r["nints"]), "capacity": show(cap), "exceeded for": {show(k_): x for k_, x in w.items()}}, e.node)
                 else:
@@ -1887,10 +2076,48 @@ def _differs(d, facts, limit=24):
     if lin(d).is_const():
         return True, {"always": f"the two differ by {lin(d).c}"}
     syms = M.free_symbols(d)
-    w = M.find_witness(syms, facts, lambda a_: M.lin_eval(d, a_) not in (None, 0), limit=limit) if len(syms) <= 3 else None
+    if _related(syms):
+        # the length / value of something computed from another of the quantities by a call this engine does not know: it may well be tied to it, so
+        # values chosen independently are not a counter-example
+        return None, None
+    w = _witness(syms, facts, lambda a_: M.lin_eval(d, a_) not in (None, 0), limit=limit) if len(syms) <= 3 else None
     if w is not None:
         return True, {show(k): x for k, x in w.items()}
     return None, None
+
+
+def _witness(symbols, facts, bad, **kw):
+    """M.find_witness over independent quantities only: the length of something an unknown call returned is not free to choose"""
+    symbols = list(symbols)
+    if _related(symbols):
+        return None
+    return M.find_witness(symbols, facts, bad, **kw)
+
+
+def _related(syms):
+    """two of the quantities are tied in a way the engine does not know: one is a property of the result of an opaque call on the other"""
+    syms = list(syms)
+    for a in syms:
+        if not _derived(a):
+            continue
+        for b in syms:
+            if b is a:
+                continue
+            base = b[1] if isinstance(b, tuple) and b[:1] in (("len",), ("dim",)) else b
+            if M.mentions(a[1], base) or (isinstance(base, tuple) and base[:1] == ("sym",) and M.mentions(a[1], base)):
+                return True
+    return False
+
+
+def _derived(at):
+    """an atom that stands for a property (length, dimension, element) of the result of an opaque call"""
+    def opaque(v):
+        if isinstance(v, tuple) and v[:1] == ("op",):
+            return True
+        if isinstance(v, tuple) and v[:1] in (("elem",), ("slice",), ("attr",)):
+            return opaque(v[1])
+        return False
+    return isinstance(at, tuple) and at[:1] in (("len",), ("dim",)) and opaque(at[1])
 
 
 def _tiling(ctx, E, q, seq, fn):
@@ -1928,8 +2155,13 @@ def _tiling(ctx, E, q, seq, fn):
                 # is a loop over positions of the sequence
                 inside = [_int_records(E, x, seq, N) for x in s.events if e.d["loop"] in x.loops and x.kind in ("format", "call")]
                 inside = [x for x in inside if x is not None]
-                offs = {x["a"] - e.d["target"] for x in inside if "unknown" not in x}
                 tsym = M.lin(e.d["target"]).atoms()
+                tat = tsym[0] if len(tsym) == 1 and e.d["target"] == lin(tsym[0]) else None
+                # position = stride * variable + offset  (a chunk number times the chunk length, ...)
+                strides = {x["a"].t.get(tat, 0) for x in inside if "unknown" not in x} if tat is not None else set()
+                stride = next(iter(strides)) if len(strides) == 1 else None
+                ok_stride = stride is not None and stride.denominator == 1 and stride >= 1
+                offs = {x["a"] - e.d["target"].scale(stride) for x in inside if "unknown" not in x} if ok_stride else set()
                 if not inside or any("unknown" in x for x in inside) or len(offs) != 1 or any(M.mentions(at, t_) for o_ in offs for at in o_.t for t_ in tsym):
                     if inside or any(x.kind == "call" and x.d["attr"] == "write" and e.d["loop"] in x.loops for x in s.events):
                         v.unknown({"loop": show(it), "writes inside": [x.get("unknown") or show(x["a"]) for x in inside][:3]}, e.node)
@@ -1937,23 +2169,25 @@ def _tiling(ctx, E, q, seq, fn):
                         break
                     continue
                 off = next(iter(offs))
-                it = (it[0], lin(it[1]) + off, lin(it[2]) + off, it[3])
+                it = (it[0], lin(it[1]).scale(stride) + off, lin(it[2]).scale(stride) + off, lin(it[3]).scale(stride))
                 r, w = _differs(lin(it[1]) - wp, e.facts)
                 if r is True:
                     v.bad({"the loop starts at": show(it[1]), "written up to": show(wp), "differ for": w}, e.node)
                 elif r is None:
                     v.unknown({"the loop starts at": show(it[1]), "written up to": show(wp)}, e.node)
-                for_loops[e.d["loop"]] = (e.d["target"] + off, it)
-                wp = e.d["target"] + off
+                for_loops[e.d["loop"]] = (e.d["target"].scale(stride) + off, it)
+                wp = e.d["target"].scale(stride) + off
             elif e.kind == "loopend" and e.d["loop"] in for_loops:
                 k_, it = for_loops[e.d["loop"]]
-                want = M.mk_min([k_ + it[3], it[2]], e.facts)
+                # the next pass starts one stride on; the last pass may stop at the end of the sequence (what is written is clamped there)
+                want = M.mk_min([k_ + it[3], it[2], N], e.facts)
+                wp = M.mk_min([wp, N], e.facts)
                 r, w = _differs(wp - want, e.facts)
                 if r is True:
                     v.bad({"one pass writes up to": show(wp), "the next pass starts at": show(want), "differ for": w}, e.node)
                 elif r is None:
                     v.unknown({"one pass writes up to": show(wp), "the next pass starts at": show(want)}, e.node)
-                wp = lin(it[2])           # by induction the passes cover [lo, hi)
+                wp = M.mk_min([lin(it[2]), N], e.facts)           # by induction the passes cover [lo, min(hi, length))
             elif e.kind == "loopend" and e.d["loop"] in loop_entry:
                 nm = loop_entry[e.d["loop"]]
                 r, w = _differs(lin(e.d["env"][nm]) - wp, e.facts)
@@ -1982,7 +2216,7 @@ def _tiling(ctx, E, q, seq, fn):
             lo, hi = M.bounds(wp - N, s.facts)
             if not (lo is not None and lo >= 0):
                 syms = M.free_symbols(wp - N)
-                w = M.find_witness(syms, s.facts, lambda a_: (M.lin_eval(wp - N, a_) is not None and M.lin_eval(wp - N, a_) < 0), limit=30) if len(syms) <= 3 else None
+                w = _witness(syms, s.facts, lambda a_: (M.lin_eval(wp - N, a_) is not None and M.lin_eval(wp - N, a_) < 0), limit=30) if len(syms) <= 3 else None
                 # loop symbols over-approximate what the loop can produce: only report when none is involved
                 if w is not None and not any("@" in show(k) for k in w):
                     v.bad({"written up to": show(wp), "length": show(N), "elements left for": {show(k): x for k, x in w.items()}})
@@ -2097,25 +2331,26 @@ def _has_thru(v):
 
 
 RULES = [
-    ("C13-R1", r1_templates, 26),
+    ("C13-R1", r1_templates, 34),
     ("C13-R2", r2_nonempty_vector, 4),
-    ("C13-R3", r3_reader_strides, 9),
-    ("C13-R4", r4_sequence_coverage, 5),
+    ("C13-R3", r3_reader_strides, 10),
+    ("C13-R4", r4_sequence_coverage, 7),
 ]
 LEVEL = "other"
 EXPLANATION = ("Static: every hard-wired or default floating-point format in the bulk writers is checked to fit its field over all finite doubles "
                "(E5 width bound); wttabled1/wtgrids line templates obey the 8 + n*W card grid (case split on the rendered width of the user format) and "
                "the leftover arithmetic keeps ENDT on the card; vectorised writes that can receive an empty vector are guarded (derived from vecwrite's "
                "own summary); typed readers index the fields the writers fill; the DMIG half-storage test matches the reader's mirror and the reader "
-               "stores entries at (row position, column position); list writers (wtnasints, wtset, _wt_with_thru) emit every element exactly once and "
-               "give every template as many values as it has fields.  All rules are decided on symbolic values (string templates, linear integer "
-               "forms with floor division, path facts) computed by verifier/c13_sem.py, not on source text; what a rule cannot lower is an analysis "
-               "error, never a violation.")
+               "stores entries at (row position, column position); list writers (wtnasints, and the THRU loops reached from wtset, wtspoints, wtxset1) "
+               "emit every element exactly once and give every template as many values as it has fields.  All rules are bound to the public entry "
+               "points and follow calls (helpers, nested functions, generators, partial / lambda callbacks); they are decided on symbolic values "
+               "(string templates, linear integer forms with floor division, path facts) computed by verifier/c13_sem.py, not on source text; what a "
+               "rule cannot lower is an analysis error, never a violation.")
 MANIFEST = {
     "text": "Partial claim decided statically: (R1) width of every floating-point spec over the whole double range, card-grid arithmetic of wttabled1/wtgrids "
             "templates, leftover-pair range, last-line head, ENDT; (R2) non-empty-vector contract of writer.vecwrite at its call sites; (R3) reader strides vs "
             "writer layout, DMIG symmetry test vs reader mirror, entry orientation, rows written per column, D exponent; (R4) wtnasints line wrapping (field "
-            "count = value count, capacity, consecutive slices) and the THRU cursor of wtset/_wt_with_thru. Known findings (default/hard-wired formats narrower "
+            "count = value count, capacity, consecutive slices) and the THRU cursor of wtset / wtspoints / wtxset1 (through whatever helper holds the loop). Known findings (default/hard-wired formats narrower "
             "than the value domain) are listed in known_findings.json. Not decided: run detection of _find_sequence on data, text wrapping of SET lines, "
             "DMIG index ordering on data, precision of values, uset2bulk/bulk2uset coordinate chains.",
     "note": "Trusted: CPython ast; Python format-spec semantics ('E' exponents have at least two digits and three below 1e-99/above 1e+99). Assumed: the "
